@@ -221,7 +221,10 @@ def check_map(case, rec=None):
         if not ok:
             return [exc_failure("TensorMap()", m)]
         res = {}
-        for name in ("UB", "mt", "unitcell", "B", "U"):
+        # the order in which the derived maps are first asked for must not matter (each may be built from the others
+        # once they are cached)
+        order = ("UB", "mt", "unitcell", "B", "U") if case["mseed"] % 2 else ("U", "B", "unitcell", "mt", "UB")
+        for name in order:
             ok, v = guard(lambda: getattr(m, name))
             if not ok:
                 fails.append(exc_failure("TensorMap.%s" % name, v))
